@@ -1,6 +1,9 @@
 SPECIFICATION Spec
 CONSTANTS
   MaxLen = 6
+  NeedResult = FALSE
+  MinFns = 1
+  MaxFns = 1
   MaxDepth = 3
   Names = {"a", "b"}
 INVARIANTS StackOK Agree ForwardOutward EmitCase
